@@ -59,7 +59,7 @@ var checks = map[string]checkCfg{
 		Real: realCommon, Stub: stubCommon,
 		Assume: []string{"searches in the battery use total sort orders (unique first-packet times by construction, id as last key)"}},
 	"C09": {Engine: "mgrsim", QuickS: 40, ThoroughS: 1200, Level: "exploration",
-		Rule: "one case = one seeded plan and schedule including slow jobs, converter failures (exit, protocol violation), corrupt/empty uploads, create errors and disk full during import/merge bodies; after the last API call the controller keeps choosing enabled background steps until none is enabled; violation = a step that never returns (watchdog 30 s), more than 200+40(T+1)(F+C+1) drain steps, or no step enabled while queue/flags/uncertain/to-convert are non-empty. distinct = distinct schedule signature; non-trivial = overlap of jobs and API calls",
+		Rule: "one case = one seeded plan and schedule including slow jobs, converter failures (exit, protocol violation), corrupt/empty uploads, create errors and disk full during import/merge bodies, in run indices 1 mod 3 a gate inside the converter job (between two rounds of conversions); after the last API call the controller keeps choosing enabled background steps until none is enabled; violation = a step that never returns (watchdog 30 s), more than 200+40(T+1)(F+C+1) drain steps, or no step enabled while queue/flags/uncertain/to-convert are non-empty. distinct = distinct schedule signature; non-trivial = overlap of jobs and API calls",
 		Real: realCommon, Stub: stubCommon,
 		Assume: []string{"watchdog 30 s real time is far above the slowest step (<1 s)"}},
 	"C10": {Engine: "mgrsim", QuickS: 40, ThoroughS: 1200, Level: "exploration",
@@ -67,7 +67,7 @@ var checks = map[string]checkCfg{
 		Real: realCommon, Stub: stubCommon,
 		Assume: []string{"a view counts as opened at its first use", "one-shot import is the reference (C05/C08)"}},
 	"C11": {Engine: "mgrsim", QuickS: 40, ThoroughS: 1200, Level: "exploration",
-		Rule: "one case = one seeded sequence of valid and invalid tag API calls (bad names, dangling/self/cyclic references, marks on stream 0 and unknown ids, unknown converters, renames onto existing names) interleaved with jobs; after every call the tag table projection is compared with a model (rejected => unchanged, accepted => exactly the requested change), the graph is checked (no dangling reference, no cycle, referenced mirrors definitions); a crash of the worker or a watchdog timeout is a violation. distinct = distinct schedule signature",
+		Rule: "one case = one seeded sequence of valid and invalid tag API calls (bad names, dangling/self/cyclic references, marks on stream 0 and unknown ids, unknown converters, renames onto existing names) interleaved with jobs, a quarter of the plans with a clean restart in between; after every call the tag table projection is compared with a model (rejected => unchanged, accepted => exactly the requested change), the graph is checked (no dangling reference, no cycle, referenced mirrors definitions); a crash of the worker or a watchdog timeout is a violation. distinct = distinct schedule signature",
 		Real: realCommon, Stub: stubCommon,
 		Assume: []string{"which of {applied, rejected} happens is only prescribed where the property names it"}},
 	"C12": {Engine: "mgrsim", Engine2: "cachesim", Engine2Every: 6, QuickS: 60, ThoroughS: 1500, Level: "fault_enumeration",
@@ -79,12 +79,12 @@ var checks = map[string]checkCfg{
 		Real: realCommon, Stub: stubCommon,
 		Assume: []string{"what jobs hold is internal: equalities only when no job exists"}},
 	"C15": {Engine: "cachesim", QuickS: 25, ThoroughS: 900, Level: "fault_enumeration",
-		Rule:   "one case = one seeded operation history on the real cache file (store with arbitrary chunk lists, invalidate, reset, reopen, compaction at seeded and shipped thresholds) compared with a map model after every operation; after a store the file is copied and truncated at every byte offset of the structured parts of the appended record (sampled inside long payload bodies) and must open and serve all complete records; in two thirds of the runs the file is recorded at every I/O point of every operation, every state that is a truncation of an append is restarted, judged and continued with three more operations and another reopen; a third of the runs make one store fail with a full disk. distinct = distinct (history hash) ; crash states counted separately",
+		Rule:   "one case = one seeded operation history on the real cache file (store with arbitrary chunk lists, invalidate, reset, reopen, compaction at seeded and shipped thresholds) compared with a map model after every operation; after a store the file is copied and truncated at every byte offset of the structured parts of the appended record (sampled inside long payload bodies) and must open and serve all complete records; in two thirds of the runs the file is recorded at every I/O point of every operation, every state that is a truncation of an append is restarted, judged and continued with three more operations and another reopen; a third of the runs make one store fail with a full disk; kill states include the temporary file of a compaction; reads are made with a second caller (reset + store of another stream) standing by at every lock release by statement (none on the shipped code). distinct = distinct (history hash) ; crash states counted separately",
 		Real:   []string{"converters.cacheFile (all of it)"},
 		Stub:   []string{"compaction threshold knob", "no converter process (records are generated)"},
 		Assume: []string{"zero-length chunks carry no data and may vanish"}},
 	"C16": {Engine: "mgrsim", QuickS: 40, ThoroughS: 1200, Level: "exploration",
-		Rule: "one case = one seeded plan with the harness converter attached/detached/reset, imports extending converted streams, on-demand conversions, transient converter failures, under a seeded schedule; after every step every cached output seen through a fresh view must carry the digest of that view's payload; at quiescence every decided match of a tag with a converter has output. distinct = distinct schedule signature; non-trivial = a converter job ran",
+		Rule: "one case = one seeded plan with the harness converter attached/detached/reset, imports extending converted streams, on-demand conversions, transient converter failures, under a seeded schedule; after every step every cached output seen through a fresh view must carry the digest of that view's payload; at quiescence every decided match of a tag with a converter has output. Run indices 1 mod 3 park the converter job also between two rounds of conversions (steps of other actors land inside the job); some of those are quiet plans (one or two tags sharing a converter, captures imported in order, a late detach). distinct = distinct schedule signature; non-trivial = a converter job ran",
 		Real: realCommon, Stub: stubCommon,
 		Assume: []string{"the harness converter prints a digest of its whole input"}},
 	"C19": {Engine: "httpsim", QuickS: 30, ThoroughS: 600, Level: "exploration",
